@@ -27,6 +27,9 @@ import (
 type c08Case struct {
 	B64  string `json:"b64"`  // the input bytes
 	Text string `json:"text"` // %q rendering, informational
+	// MustFail: the input contains, in an expression position, a sub-expression
+	// that is itself rejected by Compile; the whole must be rejected too.
+	MustFail string `json:"must_fail,omitempty"`
 }
 
 func mkC08(s string) c08Case {
@@ -131,7 +134,11 @@ func init() {
 		if err := json.Unmarshal(raw, &c); err != nil {
 			return c08Result{Fail: "bad case: " + err.Error()}
 		}
-		return c08Predicate(c.input())
+		res := c08Predicate(c.input())
+		if res.Fail == "" && c.MustFail != "" && res.Valid {
+			res.Fail = fmt.Sprintf("compiles although its sub-expression %s is rejected by Compile on its own", c.MustFail)
+		}
+		return res
 	}
 	replay := func(raw json.RawMessage) string {
 		var c c08Case
@@ -143,7 +150,7 @@ func init() {
 		_, msg := c08Run(is, c)
 		return msg
 	}
-	for _, n := range []string{"TestC08_Exhaustive", "TestC08_Signatures", "TestC08_Random", "TestC08_Mutations", "TestC08_Findings", "FuzzC08Compile"} {
+	for _, n := range []string{"TestC08_Exhaustive", "TestC08_Signatures", "TestC08_ErrorPositions", "TestC08_Random", "TestC08_Mutations", "TestC08_Findings", "FuzzC08Compile"} {
 		registerReplay(n, replay)
 	}
 }
@@ -405,6 +412,81 @@ func genMutation(base string) *rapid.Generator[string] {
 		}
 		return string(rs)
 	})
+}
+
+// c08Templates: one hole (X) in every expression position of every construct.
+var c08Templates = []string{
+	`X`, `(X)`, `(1; X)`, `(X; 1)`, `[X]`, `[1, X]`, `[X, 1]`, `[X..2]`, `[1..X]`, `{X: 1}`, `{"k": X}`, `{"k": 1, "j": X}`, `{"k": 1, X: 2}`,
+	`a{X: 1}`, `a{"k": X}`, `X{"k": 1}`, `$f(X)`, `$f(1, X)`, `X(1)`, `$f(?, X)`, `a[X]`, `X[1]`, `a[1][X]`, `a.X`, `X.a`, `a.b[X].c`, `a.(X)`, `$$.X`, `**.X`, `a.X[]`,
+	`X ? 1 : 2`, `1 ? X : 2`, `1 ? 2 : X`, `1 ? X`, `$v := X`, `($v := X; $v)`, `function($a){X}`, `function($a){X}(1)`, `function($a)<n:n>{X}`, `λ($a){X}`,
+	`a^(X)`, `a^(>X, b)`, `a^(b, <X)`, `X^(a)`, `X + 1`, `1 + X`, `X * 2`, `X & "s"`, `"s" & X`, `X = 1`, `1 != X`, `X < 1`, `X and true`, `true or X`, `X in [1]`, `1 in X`, `-X`, `-(X)`,
+	`X ~> $f`, `a ~> X`, `a ~> $f(X)`, `|X|{"a":1}|`, `|a|X|`, `|a|{"b":1}, X|`, `a ~> |b|{"c": X}|`, `[1, [2, {"a": [X]}]]`, `$map(a, function($v){X})`, `(function(){X})()`,
+}
+
+// c08Rejected: expressions that Compile rejects in its second (tree
+// normalisation) phase or in the lexer/parser, each on its own.
+var c08Rejected = []string{
+	`"a".b`, `1.x`, `null.b`, `true.c`, `a."b"`, `a.1`, `a{"k":1}{"j":2}`, `a{"k":1}[0]`, `(a{"k":1}{"j":2})`, `[a.2]`, `{"a": b.true}`,
+	`(1 := 2)`, `(a := 2)`, `function(1){1}`, `function($a, b){1}`, `/[/`, `"\q"`, `1e999`, `"\ud83d"`, `a.`, `? 1`, `1 2`, `a[`, `{"a" 1}`,
+}
+
+// TestC08_ErrorPositions: a rejected sub-expression in any expression position
+// makes the whole text rejected (no error is lost on the way up), and a valid
+// one in the same position goes through the general predicate.
+func TestC08_ErrorPositions(t *testing.T) {
+	rec := begin(t, "C08", "enumerated: 66 one-hole templates covering every expression position of every construct x 25 sub-expressions that Compile rejects on their own (path literals, double grouping, predicate after grouping, illegal assignment/parameters, bad regex/escape/number, truncated constructs) - the whole text must be rejected - and x 12 valid sub-expressions through the general predicate; distinct by text")
+	defer finish(t, rec)
+	valid := []string{`a`, `1`, `"s"`, `$x`, `[1]`, `{"a":1}`, `$f(1)`, `function($q){$q}`, `/a/`, `a.b[0]`, `a{"k": b}`, `a^(b)`}
+	var all []c08Case
+	// only sub-expressions that are rejected on their own on this tree are claimed
+	var rejected []string
+	pre := newIsolator()
+	for _, e := range c08Rejected {
+		if res, msg := c08Run(pre, mkC08(e)); msg == "" && !res.Valid {
+			rejected = append(rejected, e)
+		} else {
+			rec.Class("subexpression_not_rejected_alone")
+		}
+	}
+	pre.Close()
+	for _, tpl := range c08Templates {
+		for _, e := range rejected {
+			// parenthesised, so that the surrounding text cannot re-associate it
+			c := mkC08(strings.ReplaceAll(tpl, "X", "("+e+")"))
+			c.MustFail = fmt.Sprintf("%q", e)
+			all = append(all, c)
+		}
+		for _, e := range valid {
+			all = append(all, mkC08(strings.ReplaceAll(tpl, "X", e)))
+		}
+	}
+	shard, nshards := stats.Shard()
+	const W = 8
+	var wg sync.WaitGroup
+	for w := 0; w < W; w++ {
+		wg.Add(1)
+		go func(w int) {
+			defer wg.Done()
+			is := newIsolator()
+			defer is.Close()
+			for i := w; i < len(all); i += W {
+				if i%nshards != shard || rec.Violations() >= 5 {
+					continue
+				}
+				c := all[i]
+				res, msg := c08Run(is, c)
+				c08Record(rec, c.input(), res, false)
+				if c.MustFail != "" {
+					rec.Class("must_be_rejected")
+				}
+				if msg != "" {
+					rec.FailNow(c, msg)
+				}
+			}
+		}(w)
+	}
+	wg.Wait()
+	rec.Exhaustive("template_x_subexpression", len(all))
 }
 
 // TestC08_Mutations: every corpus expression unchanged, and single/double
